@@ -242,6 +242,16 @@ static int do_call(const call_t * c) {
         char * r = SCPI_dtostre(c->d, (char *) buf, len, (unsigned char) c->prec, (unsigned char) c->flags);
         rp = (r == (char *) buf);
         for (ret = 0; ret < len && buf[ret]; ret++) {}        /* no length is returned: the text is what is in the buffer */
+    } else if (!strcmp(c->api, "copyfail")) {
+        /* a copy that fails (no parameter, or data that is no string): nothing outside the buffer may be touched */
+        size_t sl = strlen(c->src);
+        char line[320];
+        memcpy(line, "TXT", 3); memcpy(line + 3, c->src, sl); line[3 + sl] = '\n';
+        g_buf = (char *) buf; g_len = len; g_copy = 0; g_ok = 0; g_called = 0;
+        fresh();
+        SCPI_Input(&ctx, line, (int) (sl + 4));
+        ret = 0;
+        ok = g_called && !g_ok;
     } else if (!strcmp(c->api, "copy")) {
         size_t sl = strlen(c->src);
         char line[320];
@@ -572,6 +582,15 @@ static void gen_fmt(long nrandom, int custom_dtostre) {
             }
             t0[p++] = Q; t0[p] = 0;
             if (nt >= 399) break;
+        }
+        {
+            static const char * const bad[] = {" ", " 123", " ABC", " #13abc", " (1:2)", " 1.5 V"};    /* the space stands for "TXT " */
+            size_t l;
+            for (k = 0; k < 6; k++) {
+                memset(&c, 0, sizeof c);
+                c.api = "copyfail"; c.src = bad[k]; c.bd = 1;
+                for (l = 0; l <= 3; l++) { c.len = l; both_modes(&c); }
+            }
         }
         for (k = 0; k < nt; k++) {
             size_t l;
